@@ -28,7 +28,7 @@ func init() {
 	register(&c06{base{
 		id:          "C06",
 		level:       lvlExploration,
-		rule:        "each case: an independent PAR2 writer emits a set for seeded files (ASCII names, some in sub-directories) with a seeded layout: base name drawn from a corpus with spaces and glob metacharacters, recovery blocks with a random exponent subset of 0..4000 spread over 1..6 arbitrarily named <base>.*.par2 files, packets permuted and duplicated, packets of a foreign recovery set (with clashing exponents) and of unknown types interleaved, volume files with or without copies of the main/description/checksum packets; the index file stays free of recovery packets and starts with a packet of its own set, every file has a creator packet. Then real par2.Verify must count every slice and exactly the distinct exponents written; after seeded damage within capacity real par2.Repair must restore all files (singularity of the forced system decided by reference). A key is (base-name class, #volume files, exponent-set class, layout features). A sixth of the sets contain files above 16 KiB.. The interleaved foreign set contains a dot file, an empty file and a ../ name; recovery files with the main packet but only part of the description/checksum packets.. Pinned case limit-32768-slices.",
+		rule:        "each case: an independent PAR2 writer emits a set for seeded files (ASCII names, some in sub-directories) with a seeded layout: base name drawn from a corpus with spaces and glob metacharacters, recovery blocks with a random exponent subset of 0..4000 spread over 1..6 arbitrarily named <base>.*.par2 files, packets permuted and duplicated, packets of a foreign recovery set (with clashing exponents) and of unknown types interleaved, volume files with or without copies of the main/description/checksum packets; the index file stays free of recovery packets and starts with a packet of its own set, every file has a creator packet. Then real par2.Verify must count every slice and exactly the distinct exponents written; after seeded damage within capacity real par2.Repair must restore all files (singularity of the forced system decided by reference). A key is (base-name class, #volume files, exponent-set class, layout features). A sixth of the sets contain files above 16 KiB.. The interleaved foreign set contains a dot file, an empty file and a ../ name; recovery files with the main packet but only part of the description/checksum packets.. Pinned case limit-32768-slices. A quarter of the sets carry a non-recovery set (described, unprotected files) larger than the recovery set.",
 		assumptions: commonAssumptions,
 		opts:        core.WorkerOpts{CrashIsViolation: true, WallSeconds: 2400},
 	}})
